@@ -4,7 +4,7 @@ PROPS[pid]["rules"] = [(rule id, floor of decided instances, selector over insta
 Floors are the numbers counted on the tree the rules were written against: a rule that suddenly
 matches fewer sites is a broken check (exit 2), never a silent pass.
 """
-from . import mf, lp, wc, mk, nc, lt, td, pm, hs, ws, tf, ec, se, bb, lc, cm, vt, bt, sr, le, wf, dp, dt, he, gl, ts, ee, sl, wp, fs, ic, nb, im, rn, mp, sp, ms, cp, sh, st, rh, vo, wi, law, cn, pr, dtr, sa, vx
+from . import wt, mf, lp, wc, mk, nc, lt, td, pm, hs, ws, tf, ec, se, bb, lc, cm, vt, bt, sr, le, wf, dp, dt, he, gl, ts, ee, sl, wp, fs, ic, nb, im, rn, mp, sp, ms, cp, sh, st, rh, vo, wi, law, cn, pr, dtr, sa, vx
 
 
 def has(*subs):
@@ -28,6 +28,7 @@ def vo_sel(*mods, only_label_order=False):
 
 RULES = {
     "LP": {"run": lp.run},
+    "WT": {"run": wt.run},
     "MF": {"run": mf.run},
     "WF": {"run": wf.run, "needs": ["ffi"]},
     "DP": {"run": dp.run},
@@ -142,12 +143,12 @@ PROPS = {
         "rules": [("DP", 8, has("unsmoothed_wmc", "evaluate")), ("CP", 8, has("fold", "bdd_fold_h", "BddPtr::low", "BddPtr::high")),
                   ("MS", 13, None), ("FS", 6, has("fold", "wmc", "assignment_weight", "bb_ub", "marginal_map")),
                   ("SH", 3, has("SH5")), ("LAW", 55, None), ("LT", 1, has("WmcParams")),
-                  ("SP", 10, has("SP1")), ("NB", 33, None)],
+                  ("SP", 10, has("SP1")), ("NB", 33, None), ("WT", 5, hasnot("from_litvec"))],
         "explanation": "The generic count is the homomorphism Or->+, And->*, True->1, False->0, Lit->weight by polarity, and "
                        "evaluate encodes an assignment as (low=!b, high=b) (DP); the folds hand effective children to the "
                        "callback/recursion (CP on BddPtr::fold, bdd_fold_h, SddPtr::fold); the dual-polarity memo is written and "
                        "read in the slot of the pointer's own polarity (MS); accumulators are seeded with the semiring "
-                       "identities (FS). Not decided: the numeric identity itself, order/vtree independence. Added: WmcParams.var_to_val, a table indexed by label, is only grown by push and updated through index_mut (LT).",
+                       "identities (FS). Not decided: the numeric identity itself, order/vtree independence. Added: WmcParams.var_to_val, a table indexed by label, is only grown by push and updated through index_mut (LT). Added: WT — the weight table is filled and read entry-for-entry: WmcParams::new stores each key's own value, set_weight(l, low, high) stores (low, high) at l and pads with None exactly while the index is out of range, var_weight reads its label's entry, assignment_weight takes .1 for a true and .0 for a false literal of the literal's own label.",
     },
     "C08": {
         "level": "other",
@@ -276,12 +277,12 @@ PROPS = {
         "rules": [("EE", 3, None), ("IC", 5, has("repr::cnf::")), ("WP", 2, has("repr::cnf::")),
                   ("FS", 3, has("repr::cnf::", "assignment_weight")), ("CN", 2, None),
                   ("PR", 1, has("CnfHasher")), ("LT", 2, has("CnfHasher")),
-                  ("PM", 9, None), ("HS", 5, None), ("LC", 2, has("is_sat_partial", "Cnf::eval", "Cnf::condition")), ("LP", 6, None)],
+                  ("PM", 9, None), ("HS", 5, None), ("LC", 2, has("is_sat_partial", "Cnf::eval", "Cnf::condition")), ("LP", 6, None), ("WT", 1, has("from_litvec"))],
         "explanation": "Brute-force counting leaves its enumeration loop only when the assignment iterator is exhausted (EE); "
                        "Cnf's variable count is max label + 1 (IC); the residual hasher's pos/neg tables are selected and "
                        "indexed by the same literal (WP); counting accumulators are seeded with zero/one (FS). Not decided: "
                        "agreement of eval / condition / is_sat_partial / the hasher's 'only then' direction with their "
-                       "definitions. Added: PartialModel set/unset/get/is_set/lit_implied/lit_neg_implied and its constructors/iterators follow the two-set definition (PM, abstract interpretation over membership pairs); CnfHasher::hash skips a satisfied clause entirely, skips a falsified literal, multiplies an unassigned literal's prime and accumulates every clause product (HS); pos_lits/neg_lits keep their label indexing (LT). Added: Cnf::eval and is_sat_partial mark a clause satisfied exactly for a true literal, Cnf::condition drops the clause for the conditioning literal, drops the literal for its complement and keeps every other literal - each interpreted over all (relation, polarity) cases (LC). Added: LP — the bit-field packing of Literal (known-bits/provenance analysis of the generated accessors): the label and polarity fields do not overlap, each setter writes exactly what its getter reads, label(new(l,p)) = l and polarity(new(l,p)) = p, and negated/implies_true/implies_false equal their definitions by truth table.",
+                       "definitions. Added: PartialModel set/unset/get/is_set/lit_implied/lit_neg_implied and its constructors/iterators follow the two-set definition (PM, abstract interpretation over membership pairs); CnfHasher::hash skips a satisfied clause entirely, skips a falsified literal, multiplies an unassigned literal's prime and accumulates every clause product (HS); pos_lits/neg_lits keep their label indexing (LT). Added: Cnf::eval and is_sat_partial mark a clause satisfied exactly for a true literal, Cnf::condition drops the clause for the conditioning literal, drops the literal for its complement and keeps every other literal - each interpreted over all (relation, polarity) cases (LC). Added: LP — the bit-field packing of Literal (known-bits/provenance analysis of the generated accessors): the label and polarity fields do not overlap, each setter writes exactly what its getter reads, label(new(l,p)) = l and polarity(new(l,p)) = p, and negated/implies_true/implies_false equal their definitions by truth table. Added: WT — PartialModel::from_litvec assigns every listed literal's variable that literal's own polarity.",
     },
     "C16": {
         "level": "proof",
